@@ -8,6 +8,7 @@ package centrifuge
 import (
 	"context"
 	"math/rand"
+	"runtime"
 	"sort"
 	"strconv"
 	"sync"
@@ -58,6 +59,7 @@ type c41Survey struct {
 type c41Result struct {
 	res map[string]SurveyResult
 	err error
+	at  time.Time
 }
 
 type c41Ev struct {
@@ -82,6 +84,7 @@ type c41Run struct {
 	nret    int
 	dups    int
 	late    int
+	leaked  int
 }
 
 func c41UID(n *Node, uid string) uint64 {
@@ -157,14 +160,21 @@ func (c *c41Run) expectReturn(k int) {
 		vApp("SReturn", vNat(k+1), vList(xs), vBool(r.err != nil), vBool(prompt)))
 }
 
-func (c *c41Run) start(r *rand.Rand, remotes int) {
+func (c *c41Run) start(r *rand.Rand, remotes int) { c.startMode(r, remotes, -1, -1) }
+
+// startMode: target < 0 / mode < 0 = draw them at random
+func (c *c41Run) startMode(r *rand.Rand, remotes int, target int, forcedMode int) {
 	k := len(c.svs)
 	ctx, cancel := context.WithCancel(context.Background())
 	s := &c41Survey{abs: c.base + uint64(k) + 1, cancel: cancel, done: make(chan c41Result, 1), got: map[string]bool{}}
 	c.svs = append(c.svs, s)
 	to := ""
 	local := true
-	switch r.Intn(6) {
+	tsel := r.Intn(6)
+	if target >= 0 {
+		tsel = 5
+	}
+	switch tsel {
 	case 0:
 		to = c.n.ID() // only this node
 		s.num = 1
@@ -187,7 +197,7 @@ func (c *c41Run) start(r *rand.Rand, remotes int) {
 	c41Hook.mu.Unlock()
 	go func() {
 		res, err := c.n.Survey(ctx, "c41", nil, to)
-		s.done <- c41Result{res, err}
+		s.done <- c41Result{res: res, err: err}
 	}()
 	if local {
 		select {
@@ -200,6 +210,9 @@ func (c *c41Run) start(r *rand.Rand, remotes int) {
 		lv := uint64(s.localVal)
 		c.log(c41Ev{K: "start", ID: k + 1, Num: s.num, Local: &lv}, vApp("SStart", vNat(s.num), vOpt(vN(lv), true)))
 		mode := r.Intn(3) // 0: reply synchronously, 1: return and reply later, 2: return, reply much later or never
+		if forcedMode >= 0 {
+			mode = forcedMode
+		}
 		if mode == 0 {
 			c.log(c41Ev{K: "local", ID: k + 1}, vApp("SLocal", vNat(k+1)))
 			s.got[c.n.uid] = true
@@ -350,6 +363,119 @@ func c41Case(n *Node, r *rand.Rand) *c41Run {
 	return c
 }
 
+// ---- stress class: no waiting for the collector between injections ----
+// With GOMAXPROCS(1) a burst of HandleControl calls made by the driver goroutine runs before the collector
+// goroutine is scheduled, so which responses fit into the survey's channel is decided by its capacity.
+
+func (c *c41Run) rawDeliver(uid string, rel int, v uint32) {
+	data, _ := c.n.controlEncoder.EncodeCommand(&controlpb.Command{Uid: uid,
+		SurveyResponse: &controlpb.SurveyResponse{Id: c.base + uint64(rel), Code: v}})
+	_ = c.n.HandleControl(data)
+	c.log(c41Ev{K: "deliverND", UID: c41UID(c.n, uid), ID: rel, V: uint64(v)},
+		vApp("SDeliverND", vN(c41UID(c.n, uid)), vNat(rel), vN(uint64(v))))
+}
+
+func (c *c41Run) stalled(k int) bool {
+	s := c.svs[k]
+	select {
+	case r := <-s.done:
+		s.done <- r
+		return false
+	case <-time.After(300 * time.Millisecond):
+		return true
+	}
+}
+
+// A: duplicates of one node fill the channel, the genuine answer of the last node is dropped.
+func c41StressDup(n *Node, r *rand.Rand) *c41Run {
+	n.surveyMu.RLock()
+	base := n.surveyID
+	n.surveyMu.RUnlock()
+	c := &c41Run{n: n, base: base}
+	for i := 1; i <= 3; i++ {
+		n.nodes.remove("n" + strconv.Itoa(i))
+	}
+	remotes := 1 + r.Intn(2)
+	for i := 1; i <= remotes; i++ {
+		n.nodes.add(&controlpb.Node{Uid: "n" + strconv.Itoa(i), Name: "n" + strconv.Itoa(i)})
+	}
+	old := runtime.GOMAXPROCS(1)
+	defer runtime.GOMAXPROCS(old)
+	c.startMode(r, remotes, 0, 0) // to all nodes, local handler replies synchronously
+	sv := c.svs[0]
+	if sv.returned {
+		return c
+	}
+	c.waitDrain(sv)
+	time.Sleep(200 * time.Microsecond) // the collector is parked in its select
+	// every remote node but the last answers, the first of them several times; then the last one answers
+	dups := sv.num + r.Intn(3)
+	for j := 0; j < dups; j++ {
+		c.rawDeliver("n1", 1, uint32(10+j))
+	}
+	for i := 2; i <= remotes; i++ {
+		c.rawDeliver("n"+strconv.Itoa(i), 1, uint32(50+i))
+	}
+	c.log(c41Ev{K: "yield", ID: 1}, vApp("SYield", vNat(1)))
+	c.dups += dups - 1
+	// every expected node has answered now
+	if c.stalled(0) {
+		c.log(c41Ev{K: "stall", ID: 1}, vApp("SStall", vNat(1)))
+		sv.cancelled = true
+		c.log(c41Ev{K: "cancel", ID: 1}, vApp("SCancel", vNat(1)))
+		sv.cancel()
+	}
+	c.expectReturn(0)
+	return c
+}
+
+// B: the collector stops (context done) while the channel is full; the local handler replies afterwards.
+func c41StressLateLocal(n *Node, r *rand.Rand) *c41Run {
+	n.surveyMu.RLock()
+	base := n.surveyID
+	n.surveyMu.RUnlock()
+	c := &c41Run{n: n, base: base}
+	for i := 1; i <= 3; i++ {
+		n.nodes.remove("n" + strconv.Itoa(i))
+	}
+	n.nodes.add(&controlpb.Node{Uid: "n1", Name: "n1"})
+	old := runtime.GOMAXPROCS(1)
+	defer runtime.GOMAXPROCS(old)
+	c.startMode(r, 1, 0, 1) // to all nodes (numNodes = 2), the local handler returns without replying
+	sv := c.svs[0]
+	time.Sleep(200 * time.Microsecond)
+	n.surveyMu.RLock()
+	ch := n.surveyRegistry[sv.abs]
+	n.surveyMu.RUnlock()
+	// the remote node answers three times (the first answer is handed to the parked collector, two fill the
+	// channel) and the deadline passes, all before the collector runs again
+	c.rawDeliver("n1", 1, 21)
+	c.rawDeliver("n1", 1, 22)
+	c.rawDeliver("n1", 1, 23)
+	sv.cancelled = true
+	c.log(c41Ev{K: "cancel", ID: 1}, vApp("SCancel", vNat(1)))
+	sv.cancel()
+	res := <-sv.done
+	sv.done <- res
+	left := len(ch)
+	c.log(c41Ev{K: "collected", ID: 1, Num: 2 - left}, vApp("SCollected", vNat(1), vNat(2-left))) // besides the direct hand-off
+	c.expectReturn(0)
+	// the late local reply
+	cb := sv.cb
+	sv.cb = nil
+	finished := make(chan struct{})
+	go func() { cb(SurveyReply{Code: sv.localVal}); close(finished) }()
+	select {
+	case <-finished:
+		c.log(c41Ev{K: "local", ID: 1}, vApp("SLocal", vNat(1)))
+	case <-time.After(300 * time.Millisecond):
+		c.log(c41Ev{K: "localBlocked", ID: 1, Num: left}, vApp("SLocalBlocked", vNat(1)))
+		c.leaked++
+	}
+	c.late++
+	return c
+}
+
 // ---- the library's own default deadline ----
 // Surveys called with context.Background() while a node stays silent: termination must come from
 // defaultSurveyTimeout (a constant, 10 s; the derived context is not visible to the handler or the
@@ -425,7 +551,7 @@ func c41StartDefaultDeadline(t *testing.T) *c41BG {
 		go func() {
 			// a context WITHOUT deadline: the library must apply its own
 			res, err := n.Survey(context.Background(), "c41bg", nil, to)
-			sv.done <- c41Result{res, err}
+			sv.done <- c41Result{res: res, err: err, at: time.Now()}
 		}()
 		if sp.local {
 			lv := uint64(val)
@@ -479,9 +605,20 @@ func (b *c41BG) finish() (hung int) {
 	for k, sv := range b.svs {
 		id := k + 1
 		limit := sv.start.Add(defaultSurveyTimeout + 3*time.Second)
+		var r c41Result
+		got := false
 		select {
-		case r := <-sv.done:
-			elapsed := time.Since(sv.start)
+		case r = <-sv.done:
+			got = true
+		default:
+			select {
+			case r = <-sv.done:
+				got = true
+			case <-time.After(time.Until(limit)):
+			}
+		}
+		if got {
+			elapsed := r.at.Sub(sv.start)
 			b.log(c41Ev{K: "defaultDeadline", ID: id}, vApp("SDefaultDeadline", vNat(id)))
 			var res [][2]uint64
 			for uid, v := range r.res {
@@ -496,7 +633,7 @@ func (b *c41BG) finish() (hung int) {
 			prompt := elapsed >= defaultSurveyTimeout-200*time.Millisecond && elapsed <= defaultSurveyTimeout+3*time.Second
 			b.log(c41Ev{K: "return", ID: id, Res: res, Err: r.err != nil, Prompt: prompt, V: uint64(elapsed / time.Millisecond)},
 				vApp("SReturn", vNat(id), vList(xs), vBool(r.err != nil), vBool(prompt)))
-		case <-time.After(time.Until(limit)):
+		} else {
 			hung++
 			b.log(c41Ev{K: "hang", ID: id}, vApp("SHang", vNat(id)))
 		}
@@ -539,6 +676,7 @@ func TestVerifC41(t *testing.T) {
 		bgc = c41StartDefaultDeadline(t)
 	}
 	blockedRuns := 0
+	leaked := 0
 	for i := 0; i < w.N; i++ {
 		if !w.Want(i) || i == c41BGIndex {
 			continue
@@ -548,14 +686,33 @@ func TestVerifC41(t *testing.T) {
 			break
 		}
 		r := w.Rand(i)
-		c := c41Case(n, r)
-		class := "surveys=" + strconv.Itoa(len(c.svs))
+		var c *c41Run
+		class := ""
+		switch {
+		case i%40 == 5:
+			c = c41StressDup(n, r)
+			class = "stress/duplicates-fill-channel"
+		case i%40 == 25:
+			c = c41StressLateLocal(n, r)
+			class = "stress/late-local-reply"
+			leaked += c.leaked
+		default:
+			c = c41Case(n, r)
+			class = "surveys=" + strconv.Itoa(len(c.svs))
+		}
 		if c.blocked {
 			class += "/blocked"
 			blockedRuns++
 		}
 		term := vApp("mkCase", vList(c.coq))
-		w.Case(i, term, map[string]any{"events": c.evs, "blocked": c.blocked}, class,
+		fkey := "none"
+		switch class {
+		case "stress/duplicates-fill-channel":
+			fkey = "duplicates-fill-survey-channel"
+		case "stress/late-local-reply":
+			fkey = "late-local-reply-blocks"
+		}
+		w.Case(i, term, map[string]any{"events": c.evs, "blocked": c.blocked, "fkey": fkey}, class,
 			c.nret >= 1 && (c.dups > 0 || c.late > 0 || len(c.svs) >= 2))
 	}
 	if bgc != nil {
@@ -564,4 +721,5 @@ func TestVerifC41(t *testing.T) {
 		w.Extra["default_deadline_surveys_hung"] = hung
 	}
 	w.Extra["blocked_runs"] = blockedRuns
+	w.Extra["late_local_reply_goroutines_blocked"] = leaked
 }
